@@ -95,6 +95,10 @@ func main() {
 		probeUseBeforeCheck(c)
 		probeTypedNil(c)
 		probeAlias(c)
+		probeAlloc(c)
+		probeRound11(c)
+		probeAnyCompare(c)
+		probeRound12(c)
 		os.Exit(0)
 	}
 	if *prop == "probe-getters" {
